@@ -12,6 +12,8 @@ import (
 	"math"
 	"os"
 	"path/filepath"
+	"seehuhn.de/go/pdf/graphics/bitmap"
+	"seehuhn.de/go/pdf/internal/filter/jbig2"
 	"sort"
 	"strings"
 	"testing"
@@ -337,10 +339,27 @@ func c08JBIG2Segments(r *kit.Rand) []byte {
 		// and a text region without instances referring to both thousands of times
 		n := kit.Pick(r, []int{1000, 6000, 6000})
 		segment(0, 48, nil, 1, append(append(be32(1), be32(1)...), make([]byte, 11)...))
-		segment(1, 0, nil, 1, make([]byte, 18))
+		full := r.Bool()
+		if full {
+			// ... or the first dictionary has hundreds of symbols, and it is
+			// referred to tens of thousands of times
+			syms := make([]*bitmap.Bitmap, 200+r.Intn(800))
+			for i := range syms {
+				syms[i] = bitmap.New(8, 8)
+				copy(syms[i].Pix, r.Bytes(8))
+			}
+			segment(1, 0, nil, 1, jbig2.EncodeSymbolDictSegment(syms, r.Intn(4)))
+			n = kit.Pick(r, []int{6000, 30000, 65536})
+		} else {
+			segment(1, 0, nil, 1, make([]byte, 18))
+		}
 		many := make([]uint32, n)
+		toFirst := full && r.Chance(1, 3) // the second dictionary refers to the first one throughout
 		for i := range many {
 			many[i] = 7 // a segment that does not exist
+			if toFirst {
+				many[i] = 1
+			}
 		}
 		segment(2, 0, many, 1, make([]byte, 18))
 		refs := make([]uint32, n)
